@@ -722,6 +722,7 @@ def describe(tier):
         "{owl:sameAs, other predicate} x {graph, Flask GET, Flask POST (plain, with charset parameter, multipart), FastAPI GET}; then twice: query, add a URI synonym to the live "
         "converter, query again; graphs configured with 6 explicit predicate sets x 3 queried predicates; (b) all Accept headers of 1..3 distinct media types from 3 supported + 5 synonyms + text/html + */* x q in "
         "{absent,0.1,0.5,0.9} x 8 optional-whitespace placements; 1/3 of the 2-element headers also through both web frameworks; "
+        "one more converter served from a subclass overriding standardize_identifier (oracle expand_all(compress(u)) with the hook); "
         "distinct_nontrivial = queries with >= 2 equivalent renderings + headers whose winner is a supported type chosen by q",
         "bounds": {"accept_elements": 3, "media_types": len(TYPES), "q_values": QS},
         "exhaustive": True,
